@@ -10,11 +10,11 @@ RAW = "deterministic simulation with fault injection: the real canary.New and St
 
 CHECKS = {
  "C04": dict(
-   text="Seeded exploration: every generated dialogue (ftp, smtp incl. DATA/BDAT, redis, memcached, telnet, http) is run through the real server on the simulated transport under a scheduler-chosen segmentation / pipelining / idle-gap delivery and under the lock-step baseline; the ordered event lists must be equal and every command's expected event present exactly once in order. Sampling, not proof.",
+   text="Seeded exploration: every generated dialogue (ftp, smtp incl. DATA/BDAT, redis, memcached, telnet, http) is run through the real server on the simulated transport under a scheduler-chosen segmentation / pipelining / idle-gap delivery and under the lock-step baseline; the ordered event lists must be equal and every command's expected event present exactly once in order. Fault class: in lock-step dialogues the client may be gone before the last reply can be written (close released in the same step as the last segment); the command still counts. Sampling, not proof.",
    ref="§3 C04", tech=TECH + "metamorphic (segmentation-invariance) + generator-as-oracle event history check",
    note="Trusts: simnet models in-order reliable byte streams; one delivered segment = one scheduler step (finer interleavings not explored); GOMAXPROCS=1 workers."),
  "C08": dict(
-   text="Seeded exploration of generated port tables over stub services (with/without prefix detectors) and 1-4 interleaved clients on the simulated transport (TCP and UDP through the real socket listener): the stub actually invoked and the bytes it read until end of stream are compared with a reference model of the selection rule evaluated on the bytes the scheduler delivered before the peek returned; silent clients exercise the fake-clock 30 s peek/idle deadlines.",
+   text="Seeded exploration of generated port tables over stub services (with/without prefix detectors) and 1-4 interleaved clients on the simulated transport (TCP and UDP through the real socket listener; all-datagram scenarios release bursts to one socket in a single step): the stub actually invoked and the bytes it read until end of stream are compared with a reference model of the selection rule evaluated on the bytes the scheduler delivered before the peek returned; silent clients exercise the fake-clock 30 s peek/idle deadlines.",
    ref="§3 C08", tech=TECH + "reference-model oracle over recorded invocation history; fake clock for peek/idle timeouts",
    note="Trusts simnet's stream semantics; 'first bytes' = first delivered segment (cut at 1024); unambiguous tables only (duplicates belong to C19)."),
  "C19": dict(
@@ -26,11 +26,11 @@ CHECKS = {
    ref="§3 C06", tech=TECH + "reference-model oracle over per-channel delivery histories + metamorphic channel removal; slow-channel fault",
    note="The bus is a synchronous fan-out: the schedule dimension (interleaved senders, slow channel) is thin, the configuration x event dimension is what is explored."),
  "C07": dict(
-   text="Seeded exploration of the real file channel behind the real Run() wiring on a real temp directory under the fake clock: 1-3 interleaved senders with line lengths steered around the rotation boundary (max size 1024/4096/1 MiB, single lines larger than the limit, 500 KiB bursts), flushes by timer or by size, several rotations within one simulated second, and an external actor that removes/renames the active file or the directory, or an unwritable destination. After quiescence every file is read back: every line must parse, the multiset of serials must equal the events sent (relaxed narrowly around external faults), no multi-line file may exceed the limit, rotated files never change once seen (checked after every step), every Send must have returned.",
+   text="Seeded exploration of the real file channel behind the real Run() wiring on a real temp directory under the fake clock: 1-3 interleaved senders with line lengths steered around the rotation boundary (max size 1024/4096/1 MiB, single lines larger than the limit, 500 KiB bursts), flushes by timer or by size, several rotations within one simulated second, and an external actor that removes/renames the active file or the directory, or an unwritable destination; a third of the runs start on a log file left by an earlier run (restart). After quiescence every file is read back: every line must parse, the multiset of serials must equal the events sent (relaxed narrowly around external faults), no multi-line file may exceed the limit, rotated files never change once seen (checked after every step), every Send must have returned.",
    ref="§3 C07", tech=TECH + "durability/exactly-once oracle over the files read back + step invariant on rotated files + bounded-liveness of Send; external filesystem faults",
    note="Real file I/O on a temp dir (synchronous, deterministic); power loss and torn writes are not simulated."),
  "C10": dict(
-   text="Seeded exploration of request histories against the four rate-limited UDP services through the real socket listener on the simulated kernel: bursts of 1-200 grammar-derived datagrams from 1-3 source IPs over several source ports with fake-clock gaps from 0 to 25 minutes (so buckets refill partially and fully). Invariant over the recorded history: in every window shorter than the limiter interval a source IP receives at most 4 response datagrams; metamorphic: a source's responses (count and times) are the same with and without the other sources' traffic.",
+   text="Seeded exploration of request histories against the four rate-limited UDP services through the real socket listener on the simulated kernel: bursts of 1-200 grammar-derived datagrams from 1-3 source IPs over several source ports with fake-clock gaps from 0 to 25 minutes (so buckets refill partially and fully). Invariant over the recorded history: in every window shorter than the limiter interval a source IP receives at most 4 response datagrams; metamorphic: a source's responses (count and times) are the same with and without the other sources' traffic. Flood class: a burst from a source never seen before is released within a step or two while the handlers give way to each other at synchronisation points (yield points, seeded).",
    ref="§3 C10", tech=TECH + "sliding-window invariant over the recorded response history on the fake clock + metamorphic source removal",
    note="x/time/rate reads the bubble's fake clock; responses are what the simulated kernel carried back (WriteToUDP)."),
  "C09": dict(
@@ -38,41 +38,41 @@ CHECKS = {
    ref="§3 C09", tech=TECH + "resource-census oracle (goroutines by creation site, simulated listening sockets, fds) after a fake-clock drain; bounded-liveness of handlers once the peer is gone",
    note="Goroutines are attributed to a run by synctest bubble id; retained heap is not asserted; CPU watchdog thresholds are in CPU seconds, far above legitimate steps."),
  "C01": dict(
-   text="Seeded exploration: 1-3 services of the registry (all 24 director-less services in rotation) with 1-4 interleaved connections per service instance carrying grammar dialogues, truncations, mutations (length fields, reordering, repetition, out-of-state commands) or raw bytes under seeded segmentation, ended by close / reset / half-close / silence past the idle deadline / stalled peer. Oracles: the worker process survives (exit status and panic:/fatal error: banners are observed by the driver, which re-runs the seed alone in a fresh process and minimises it), no step exceeds the CPU/RSS budgets (runaway handlers), and a fresh connection to an echo port is still served afterwards.",
-   ref="§3 C01", tech=TECH + "process-level crash/hang/memory oracle by a watching driver + in-simulation liveness probe; client reset/half-close/idle/stall faults",
-   note="Budgets are in CPU seconds / RSS, orders of magnitude above legitimate steps; interleavings finer than a delivered segment only via same-step batch release; the race-detector tier is not built yet."),
+   text="Seeded exploration: 1-3 services of the registry (all 24 director-less services in rotation) with 1-4 interleaved connections per service instance carrying grammar dialogues, truncations, mutations (length fields, reordering, repetition, out-of-state commands) or raw bytes under seeded segmentation, ended by close / reset / half-close / silence past the idle deadline / stalled peer. Oracles: the worker process survives (exit status and panic:/fatal error: banners are observed by the driver, which re-runs the seed alone in a fresh process and minimises it), no step exceeds the CPU/RSS budgets (runaway handlers), and a fresh connection to an echo port is still served afterwards. Race tier: a second worker binary built with -race runs one service instance with 2-4 connections (mostly well-formed 'twin' dialogues whose first requests are released in one step); a data race whose two accesses are both runtime map operations (one a write) between handlers of the same scenario - the precondition of the runtime's fatal 'concurrent map writes' - is a violation when it replays alone. Batch scenarios may use yield points (handlers give way at synchronisation points by seeded decision).",
+   ref="§3 C01, R5", tech=TECH + "process-level crash/hang/memory oracle by a watching driver + in-simulation liveness probe + race detector as in-simulation monitor for same-step handlers; client reset/half-close/idle/stall faults",
+   note="Budgets are in CPU seconds / RSS, orders of magnitude above legitimate steps; interleavings finer than a delivered segment only via same-step batch release and the build-time yield points (62 sites at synchronisation primitives); the race tier sees a conflict only when no synchronisation happens to order the two handlers."),
  "C03": dict(
-   text="Seeded exploration of 2-3 (history: up to 20) scripted sessions with distinct client addresses and session-unique tags on one shared service instance (ldap, ftp incl. logged-in sessions with directory changes, smtp, telnet, redis, memcached, http, tftp), interleaved at request/response granularity by the choice tape (systematically enumerated for a third of the thorough runs), with idle and reset sessions. Oracles: solo-run equivalence (every session's transcript and the events carrying its address equal those of the same script alone on a fresh server) and tag ownership (no client receives, and no event attributed to it contains, another session's tag).",
+   text="Seeded exploration of 2-3 (history: up to 20) scripted sessions with distinct client addresses and session-unique tags on one shared service instance (ldap, ftp incl. logged-in sessions with directory changes, smtp, telnet, redis, memcached, http, tftp), interleaved at request/response granularity by the choice tape (systematically enumerated for a third of the thorough runs), with idle and reset sessions, commands arriving in two pieces with other sessions' steps in between, and earlier sessions (some ending with QUIT) followed by interleaved ones. Oracles: solo-run equivalence (every session's transcript and the events carrying its address equal those of the same script alone on a fresh server) and tag ownership (no client receives, and no event attributed to it contains, another session's tag).",
    ref="§3 C03", tech=TECH + "metamorphic solo-run equivalence + tag-ownership oracle over interleaved session histories",
    note="Granularity: one command per scheduler step; FTP transcripts compared as line multisets with host temp paths masked."),
  "C02": dict(
-   text="Seeded exploration of frame histories into the simulated NIC consumed by the real Start() receive loop (which has no recover): field-boundary frames for Ethernet/IPv4/TCP (data offset, option layouts)/UDP/ICMP/ARP, random bytes, stray segments, SYN floods of up to 70,000 distinct 4-tuples inside and across the 30 s state-table reuse horizon, four ARP/route configurations (peer known / via gateway / gateway without ARP entry / nothing), clock advances and EINTR from epoll_wait. Oracles: the worker process survives (driver: exit status, banners, CPU budget) and a well-formed UDP probe sent after the history still yields its event with the exact payload.",
+   text="Seeded exploration of frame histories into the simulated NIC consumed by the real Start() receive loop (which has no recover): field-boundary frames for Ethernet/IPv4/TCP (data offset, option layouts)/UDP/ICMP/ARP, random bytes, stray segments, TCP histories on one 4-tuple (SYN, resets, acks, data, FIN, repeated SYN, acknowledging what the listener sent), SYN floods of up to 70,000 distinct 4-tuples inside and across the 30 s state-table reuse horizon, four ARP/route configurations (peer known / via gateway / gateway without ARP entry / nothing), clock advances and EINTR from epoll_wait. Oracles: the worker process survives (driver: exit status, banners, CPU budget) and a well-formed UDP probe sent after the history still yields its event with the exact payload.",
    ref="§3 C02", tech=RAW + "process-level crash oracle by the watching driver + in-simulation liveness probe; EINTR fault; table configurations",
    note="Kernel AF_PACKET delivery semantics (truncation, VLAN auxdata) are not simulated; do_arp is not settable so ARP frames are ignored by every reachable configuration."),
  "C14": dict(
-   text="Seeded exploration: 1-4 scripted TCP peers (ISN boundary values and random, decoded/undecoded ports, 0-4000 bytes in 1-8 in-order segments of even and odd lengths, PSH placement, peers with ARP entry or behind the gateway, peers sharing an address) interleaved frame by frame by the choice tape into the simulated NIC; peers acknowledge what they receive. An independent decoder verifies every emitted frame (addressed back to the sender, IPv4 and TCP checksums, SYN-ACK acks ISN+1, every ACK equals ISN+1+bytes so far mod 2^32, FIN answered); the connection's event must carry the peer's addresses and a payload that is a prefix of the stream containing the first pushed segment; one peer is re-run alone and must see the same frames (relative sequence numbers).",
+   text="Seeded exploration: 1-4 scripted TCP peers (ISN boundary values and random, decoded/undecoded ports, 0-4000 bytes in 1-8 in-order segments of even and odd lengths, PSH placement, peers with ARP entry or behind the gateway, peers sharing an address) interleaved frame by frame by the choice tape into the simulated NIC; peers acknowledge what they receive; established connections may idle 30-55 s while others connect, and 'crossed' peers let the listener close first and send a FIN that still carries the older acknowledgement number. An independent decoder verifies every emitted frame (addressed back to the sender, IPv4 and TCP checksums, SYN-ACK acks ISN+1, every ACK equals ISN+1+bytes so far mod 2^32, FIN answered); the connection's event must carry the peer's addresses and a payload that is a prefix of the stream containing the first pushed segment; one peer is re-run alone and must see the same frames (relative sequence numbers).",
    ref="§3 C14", tech=RAW + "independent frame decoder/checksum verifier as history invariant + metamorphic solo-peer equivalence",
-   note="Server ISN comes from the seeded global math/rand and is not steerable; retransmission, out-of-order and overlapping segments are outside the statement."),
+   note="Server ISN comes from the seeded global math/rand and is not steerable; retransmission, out-of-order and overlapping segments are outside the statement; the listener hands data to its handler on PSH/FIN and the handler waits 60 s per read, so content is not judged when the silence before a pushed segment reached 59 s."),
  "C20": dict(
-   text="Seeded exploration: 1-4 scanning sources each sending one or two bursts of 1-150 TCP SYN / UDP / ICMP probes with repeated ports, interleaved by the choice tape as frames into the simulated NIC; the fake clock drives the detector's 5 s timer (re-armed by every knock, so other sources starve it) and then runs ten simulated minutes. Oracle over all port-scan events: per source the union of listed ports equals the set probed, no pair is listed twice in an event or more often than the number of bursts containing it, a single burst is reported exactly once, sources are reported separately with the sensor as destination, nothing is reported again without new probes.",
+   text="Seeded exploration: 1-4 scanning sources each sending one or two bursts of 1-150 TCP SYN / UDP / ICMP probes with repeated ports, interleaved by the choice tape as frames into the simulated NIC (fresh source port per probe, or one fixed source port per scanner with repeat scans overlapping the first); the fake clock drives the detector's 5 s timer (re-armed by every knock, so other sources starve it) and then runs ten simulated minutes. Oracle over all port-scan events: per source the union of listed ports equals the set probed, no pair is listed twice in an event or more often than the number of bursts containing it, a single burst is reported exactly once, sources are reported separately with the sensor as destination, nothing is reported again without new probes.",
    ref="§3 C20", tech=RAW + "set/exactly-once oracle over the recorded port-scan event history on the fake clock",
    note="Bursts are derived from the probes' actual simulated times (gap < 4.5 s same burst, > 11 s new burst, between: counts not judged); mixed-protocol bursts may yield one event or one per protocol family."),
  "C12": dict(
-   text="Seeded exploration of generated credential sets and attempt sequences (up to 4 per connection, gated-operation probe before and after each) against ssh-simulator (real x/crypto/ssh client inside the bubble, retrying passwords on one connection), ldap (simple binds with several DN spellings; add/modify/delete/modify-dn/compare probes) and ftp (USER/PASS; file and directory commands), with a second connection to the same service instance interleaved by the choice tape. Reference model: success iff the pair (or the wildcard) is in the set, independent of history and of the other connection; exactly one authentication event per attempt carrying the presented password and the user as evaluated; gated operations refused until a success on this very connection.",
+   text="Seeded exploration of generated credential sets and attempt sequences (up to 4 per connection, gated-operation probe before and after each) against ssh-simulator (real x/crypto/ssh client inside the bubble, retrying passwords on one connection), ldap (simple binds with several DN spellings; add/modify/delete/modify-dn/compare probes) and ftp (USER/PASS; file and directory commands), with a second (sometimes third) connection to the same service instance interleaved by the choice tape or run strictly after the first has left without unbind/QUIT. Reference model: success iff the pair (or the wildcard) is in the set, independent of history and of the other connection; exactly one authentication event per attempt carrying the presented password and the user as evaluated; gated operations refused until a success on this very connection.",
    ref="§3 C12", tech=TECH + "reference-model oracle over protocol replies and authentication events; interleaved second connection",
    note="Schedule dimension is thin (the second connection); LDAP anonymous bind result code is not judged; FTP has a fixed credential table."),
  "C13": dict(
-   text="Seeded exploration with a structural ClientHello generator (the JA3 string and MD5 are computed from the generated structure per the JA3 specification, never by parsing bytes): hellos with legacy versions SSL3..TLS1.2, GREASE in suites/extensions/groups, unknown, repeated and empty-bodied extensions, 0-3 point formats and one of three server names are sent to the real https service on separate connections, a few interleaved at a time, under record-layer fragmentation x stream segmentation x client abort (close/reset) right after the hello; GREASE-only variants of earlier hellos must get the same digest. Every https event of the connection must carry the reference digest and the SNI sent.",
+   text="Seeded exploration with a structural ClientHello generator (the JA3 string and MD5 are computed from the generated structure per the JA3 specification, never by parsing bytes): hellos with legacy versions SSL3..TLS1.2, GREASE and GREASE look-alikes (0xXaYa, one-bit neighbours) and unassigned code points in suites/extensions/groups, unknown, repeated and empty-bodied extensions, 0-3 point formats and one of three server names are sent to the real https service on separate connections, a few interleaved at a time, under record-layer fragmentation x stream segmentation x client abort (close/reset) right after the hello; GREASE-only variants of earlier hellos must get the same digest. Every https event of the connection must carry the reference digest and the SNI sent.",
    ref="§3 C13", tech=TECH + "generator-as-oracle JA3 over events recorded under record fragmentation, stream segmentation and client-abort faults",
    note="The digest itself is a pure function of the hello; what the simulator decides is that the vendored TLS stack's record/handshake reassembly delivers the same hello to it under every fragmentation, segmentation and abort."),
  "C11": dict(
-   text="Seeded exploration: 1-3 logged-in FTP sessions on one service instance (interleaved by the choice tape) issue directory, file and transfer commands with path arguments over {a, b, .., ., '', /} up to 5 components plus odd/long paths that name a sentinel tree planted beside the service root on the real temp filesystem; transfers run over passive data connections on the simulated transport, some reset mid-transfer. Oracle: the sentinel tree (everything outside the root) is byte-identical and has neither lost nor gained entries; no reply or transferred data contains sentinel names or contents; every PWD reply is a rooted path without dot-dot components.",
+   text="Seeded exploration: 1-3 logged-in FTP sessions on one service instance (interleaved by the choice tape) issue directory, file and transfer commands with path arguments over {a, b, .., ., '', /} up to 5 components plus odd/long paths that name a sentinel tree planted beside the service root on the real temp filesystem; transfers run over passive data connections on the simulated transport - with a TLS client inside the bubble, because the service wraps every passive data connection in TLS - some reset mid-transfer, some in plain text (error path); APPE/REST switch the next STOR to append mode; directed sequences create a path inside the root (MKD chain + STOR), switch to append and write again, on targets that are also absolute host paths, names relative to a planted process working directory, or siblings sharing the root's directory name as a prefix. Oracle: the sentinel tree (everything outside the root) is byte-identical and has neither lost nor gained entries; no reply or transferred data contains sentinel names or contents; every PWD reply is a rooted path without dot-dot components.",
    ref="§3 C11", tech=TECH + "sentinel-tree oracle on the real temp filesystem + reply/transfer content check; interleaved sessions and data-connection reset faults",
    note="Path mapping is sequential logic: the simulator contributes the shared-instance interleavings and the transfer faults; symlinks leaving the root are assumed absent."),
  "C05": dict(
-   text="RESTRICTED CLAIM. History invariants over every event of simulated runs of four workloads (segmented dialogues of all protocols, hostile inputs to all services, a payload sweep cycling through all 256 single bytes, 2-byte strings, invalid UTF-8/NUL/control bytes and up to 64 KiB through echo/counterstrike/memcached, and UDP datagrams through the raw listener's generic handler): every event marshals to JSON and the JSON has every key of the event (modulo encoding/json's UTF-8 coercion); payload-hex decodes to exactly the bytes of payload and payload-length is their count; recorded raw payloads are bytes that the simulated transport really delivered on that connection; source/destination addresses and ports equal the connection's as the simulated kernel created it. NOT covered: MergeFrom keeps / CopyFrom overwrites and the exhaustive enumeration of event.Payload as an API - pure functions with no schedule, clock or fault in them.",
-   ref="§3 C05", tech=TECH + "history invariants over all events of simulated runs against the transport's ground truth (restricted claim)",
-   note="The MergeFrom/CopyFrom clause and exhaustive 2-byte enumeration are not decided (not simulation targets); a service recording only part of a datagram (its buffer size) is accepted as long as the bytes are the datagram's."),
+   text="History invariants over every event of simulated runs of four workloads (segmented dialogues of all protocols, hostile inputs to all services, a payload sweep cycling through all 256 single bytes, 2-byte strings, invalid UTF-8/NUL/control bytes and up to 64 KiB through echo/counterstrike/memcached, and UDP datagrams through the raw listener's generic handler): every event marshals to JSON and the JSON has every key of the event (modulo encoding/json's UTF-8 coercion); payload-hex decodes to exactly the bytes of payload and payload-length is their count; recorded raw payloads are bytes that the simulated transport really delivered on that connection; source/destination addresses and ports equal the connection's as the simulated kernel created it. The merge/copy clause (MergeFrom keeps existing keys, CopyFrom overwrites) is evaluated against its reference semantics on every event the simulation produced (collisions with values of another type, empty strings, new keys) - a pure function, the simulator only supplies realistic events. NOT covered: the exhaustive 1- and 2-byte enumeration of event.Payload as an API (input enumeration, no schedule, clock or fault in it).",
+   ref="§3 C05", tech=TECH + "history invariants over all events of simulated runs against the transport's ground truth; merge/copy reference semantics on those events",
+   note="The exhaustive 2-byte enumeration is not decided (not a simulation target); the merge/copy clause is a pure function hosted by the simulator; a service recording only part of a datagram (its buffer size) is accepted as long as the bytes are the datagram's."),
  "C18": dict(
    level="fault_enumeration",
    text="Fault enumeration over restart histories: every boot is a separate OS process that runs the real start-up path on a shared data directory (server.New with WithDataDir/WithToken, constructors of the enabled storage-backed services, agent key pair) and then boots Run in a bubble, where the identity is observed through the public surface (token on a heartbeat event, SSH host key seen by a real ssh client, certificates presented after FTP AUTH TLS / SMTP STARTTLS / LDAP StartTLS, agent public key). The first boot of every second history is killed (os.Exit, no deferred functions) at one of 19 named crash points - around the token file's creation and write and before/after every store write of every key and certificate - in rotation, so each quick batch enumerates all of them; other histories plant the token-file states a kill can leave (absent, empty, proper prefixes). Oracle: every completed boot reports a well-formed token and parsable keys/certificates, and once a completed boot has reported an item, every later one reports the same.",
@@ -83,9 +83,9 @@ CHECKS = {
    ref="§3 C16", tech=TECH + "per-virtual-connection ordering/exactly-once oracle over both directions of the real encrypted tunnel; framing and agent-disconnect faults",
    note="The codec round trip is exercised by the messages that actually cross the tunnel; interleaving granularity is one agent message per scheduler step."),
  "C15": dict(
-   text="Seeded exploration of http-proxy, copy (tcp and udp) and dns-proxy configured with the real forward director, whose dial goes through the simulated kernel: 1-3 clients perform 1-4 exchanges each (HTTP requests with repeated header names, bodies up to 64 KiB, content-length or chunked, lock-step or pipelined, seeded segmentation; raw streams; datagrams / DNS queries) against scripted backends inside the bubble that answer with seeded segmentation of the reply leg; a decoy backend listens on another address; the backend may refuse the connection or close mid-reply (then only 'nothing wrong is delivered' is required). Oracle: what the backend received equals what the client sent (method, target, header multiset, body; raw bytes), what the client received equals what the backend sent, in order; one event per relayed request attributed to the client; the kernel's dial log names only the configured backend and the decoy saw nothing. ssh-proxy is not covered.",
+   text="Seeded exploration of http-proxy, copy (tcp and udp) and dns-proxy configured with the real forward director, whose dial goes through the simulated kernel: 1-3 clients perform 1-4 exchanges each (HTTP requests with repeated header names, bodies up to 64 KiB, content-length or chunked, lock-step or pipelined, seeded segmentation; raw streams; datagrams / DNS queries) against scripted backends inside the bubble that answer with seeded segmentation of the reply leg; a decoy backend listens on another address; the backend may refuse the connection or close mid-reply (then only 'nothing wrong is delivered' is required). Oracle: what the backend received equals what the client sent (method, target, header multiset, body; raw bytes), what the client received equals what the backend sent, in order; one event per relayed request attributed to the client; the kernel's dial log names only the configured backend (its own port when two service instances share the director) and the decoy saw nothing. ssh-proxy mode: an x/crypto/ssh server (backend) and x/crypto/ssh clients run inside the bubble around the real ssh-proxy: every password a client presents must be tried at the backend for that user, the client is let in iff the backend accepted, channel requests (env, pty-req, exec/shell, window-change, unknown types) arrive with the same payloads in order, channel data is relayed both ways unchanged (up to 64 KiB, seeded chunking, input ending before the output), every attempt and request is on record attributed to the client; 8 % of the clients drop the connection after their requests.",
    ref="§3 C15", tech=TECH + "end-to-end relay-fidelity oracle against scripted in-bubble backends, dial-target accounting; backend refuse/close faults, segmentation on both legs",
-   note="ssh-proxy is not exercised (needs an ssh backend fixture; not built). Content-Length/Transfer-Encoding framing may be re-done by the proxy. Clients that leave without waiting, or whose stream gets an idle gap near the 30 s deadline through the interleaving, are judged only for 'nothing wrong delivered'."),
+   note="Content-Length/Transfer-Encoding framing may be re-done by the proxy. Clients that leave without waiting, or whose stream gets an idle gap near the 30 s deadline through the interleaving, are judged only for 'nothing wrong delivered'."),
 }
 NA = {
  "C17": "pure functions of a byte buffer (decoder methods, ipp decode/encode): no schedule, clock, fault or interleaving to simulate (DESIGN §4)",
